@@ -24,7 +24,7 @@ class C19(Check):
             'that are multiples of the sampling period P in {0.5 s, 1 s}; a discrete trace of n <= 12 samples is evaluated by the discrete-time monitor and, as '
             'a step signal changing only at multiples of P, by the dense-time monitor; for every k with k + horizon < n the dense value at k*P must equal the '
             'discrete value at k; both are also compared with the models (rho, Dn); non-trivial = temporal operator and non-empty settled region; '
-            'plus bounded operators with windows of 3-6 periods over ramp-shaped traces of 8-18 samples; distinct by (formula, trace, P)')
+            'a quarter of the cases with bounded operators write the bounds with explicit units (both ends / one end only, s / ms / us); plus bounded operators with windows of 3-6 periods over ramp-shaped traces of 8-18 samples; distinct by (formula, trace, P)')
 
     def gen_cases(self, rng, tier):
         cases = []
@@ -37,7 +37,11 @@ class C19(Check):
                 continue
             nv = need_vars(f, nv)
             n = rng.choice([1, 2, 3, 5, 8, 12])
-            cases.append({'f': f, 'n': n, 'nv': nv, 'cols': fml.gen_trace(rng, nv, n), 'P': P})
+            c = {'f': f, 'n': n, 'nv': nv, 'cols': fml.gen_trace(rng, nv, n), 'P': P}
+            if (fml.ops(f) & (fml.TUN | fml.TBIN)) and rng.random() < 0.25:
+                # the bounds in another unit notation (explicit units on both ends or on one end only; the default unit stays s)
+                c['unit_style'] = [rng.choice(['both', 'begin', 'end']), rng.randrange(1 << 30)]
+            cases.append(c)
         # wide windows over ramp-shaped signals (runs of rising / falling values): the sliding-window algorithms have to
         # discard several dominated entries at once
         for i in range(nrand // 3):
@@ -69,6 +73,16 @@ class C19(Check):
             return fml.rebuild(f, [sc(x) for x in fml.children(f)])
         return sc(c['f'])
 
+    def spec_text(self, c):
+        P = c['P']
+        if c.get('unit_style'):
+            import random
+            from harness.densex import dense_bound
+            style, seed = c['unit_style']
+            r = random.Random(seed)
+            return 'out = ' + fml.to_text(c['f'], lambda b, e: dense_bound(r, P * b, P * e, 's', style))
+        return 'out = ' + fml.to_text(c['f'], lambda b, e: dense.bound_text(P * b, P * e))
+
     def model_lines(self, c):
         sigs = [[[k * c['P'], col[k]] for k in range(c['n'])] for col in c['cols']]
         return ['(off std %s %d %s)' % (fml.to_sx(c['f']), c['n'], fml.trace_sx(c['cols'])), '(info %s)' % fml.to_sx(c['f']),
@@ -78,12 +92,11 @@ class C19(Check):
         P = c['P']
         used = fml.fvars(c['f'])
         per = [500, 'ms', 0.1] if P == 2 else [1, 's', 0.1]
-        btxt = lambda b, e: dense.bound_text(P * b, P * e)
         data = {'time': [k * P * dense.SCALE for k in range(c['n'])]}
         for i in used:
             data[fml.VARS[i]] = list(c['cols'][i])
-        disc = {'monitor': 'discrete-offline', 'vars': fml.VARS[:c['nv']], 'period': per, 'spec': 'out = ' + fml.to_text(c['f'], btxt), 'calls': [['evaluate', data]]}
-        dn = {'monitor': 'dense-offline', 'vars': fml.VARS[:c['nv']], 'spec': 'out = ' + fml.to_text(c['f'], btxt),
+        disc = {'monitor': 'discrete-offline', 'vars': fml.VARS[:c['nv']], 'period': per, 'spec': self.spec_text(c), 'calls': [['evaluate', data]]}
+        dn = {'monitor': 'dense-offline', 'vars': fml.VARS[:c['nv']], 'spec': self.spec_text(c),
               'calls': [['evaluate', [[fml.VARS[i], [[k * P * dense.SCALE, float(c['cols'][i][k])] for k in range(c['n'])]] for i in used]]]}
         return [disc, dn]
 
@@ -127,7 +140,7 @@ class C19(Check):
         return json.dumps([fml.to_sx(c['f']), c['cols'], c['P']])
 
     def describe(self, c):
-        return {'spec': 'out = ' + fml.to_text(c['f'], lambda b, e: dense.bound_text(c['P'] * b, c['P'] * e)), 'P_s': c['P'] * dense.SCALE, 'trace': c['cols']}
+        return {'spec': self.spec_text(c), 'P_s': c['P'] * dense.SCALE, 'trace': c['cols']}
 
 
 def main(tier, seed, replay=None):
